@@ -89,7 +89,7 @@ func init() {
 		"the statement is one-directional (a bid is accepted ONLY IF ...): accepted bids are checked against the oracle on the pre-state; rejected bids are counted but not judged",
 		"bounded: MatchRequirements grid over requirement/own/attested subsets of {a=1,b=1,a=2}, auditor lists over {U1,U2} incl. duplicates; S-attr histories to the stated depth"},
 		Extra: CheckMatchRequirements,
-		Runs:  []runSpec{{"S-attr", 9, 13, nil}, {"S-attr-leased", 4, 6, nil}, {"S-attr-upper", 3, 5, nil}}}
+		Runs:  []runSpec{{"S-attr", 9, 13, nil}, {"S-attr-leased", 4, 6, nil}, {"S-attr-upper", 3, 5, nil}, {"S-attr-2groups", 3, 5, nil}}}
 	props["C19"] = propSpec{Checker: func() Checker { return chkC19{} }, Assume: []string{
 		"one-directional as stated: every admitted create-deployment request satisfies every limit; rejected requests are only required to leave the state unchanged",
 		"bounded: all single boundary values and all pairs (thorough: arithmetic triples) of the limit dimensions; stored-state predicate on every reachable state of S-life"},
